@@ -163,7 +163,7 @@ Proof.
     - intros ->. destruct y, x; cbn in Ed; try discriminate.
     - cbn [eval_binop]. exact En. }
   set (s5 := put_vm s4 (DReg R_RESULT) neg 4) in *.
-  assert (Hs5 : sim (assign ss v x) s5) by (apply sim_put_reg_hidden; [exact Hs4|reflexivity]).
+  assert (Hs5 : sim (assign ss v x) s5) by (apply sim_put_reg_hidden; [exact Hs4|reflexivity|reflexivity]).
   assert (Hr5 : rf_get (m_regs s5) R_RESULT = Some neg) by (unfold s5; cbn [put_vm m_regs]; apply rf_get_set_same).
   assert (Hfr5 : m_frames s5 = FLoop lv3 d :: r') by exact Hfr4.
   assert (Hpc5 : m_pc s5 = m_pc sc + 8) by (unfold s5, s4; cbn [put_vm with_lv m_pc]; lia).
